@@ -336,7 +336,10 @@ func VStoreCrash(K int) {
 	t1 := zzv.Time("t1")
 	timeNow = func() time.Time { return t1 }
 	req2, want2 := vRequest(K, "r2")
-	mode := zzv.Choose("w2.mode", 5)
+	mode := zzv.Choose("w2.mode", 6)
+	if mode == 5 && !zzv.Symbolic() {
+		zzv.FSFaultSize(vDryRunSize(dir, req2))
+	}
 	zzv.FSFaultNext("*", mode)
 	var err2 error
 	crashed := zzv.Crashed(func() {
@@ -368,12 +371,12 @@ func VStoreCrash(K int) {
 		lbl := "C09.start" + zzv.Itoa(start)
 		// F1: a write interrupted part-way leaves a truncated store; Load fails (start-up panics)
 		// and its deferred UpdateTargets rewrites the store as an empty assignment
-		zzv.Finding("C09-F1", mode == 2 || mode == 4)
+		zzv.Finding("C09-F1", mode == 2 || mode == 4 || mode == 5)
 		zzv.Assert(lbl+".succeeds", lerr == nil)
 		info := fresh.TargetsInfo()
 		is1 := vMatches(K, info, want1, idle1)
 		is2 := vMatches(K, info, want2, idle2)
-		zzv.Finding("C09-F1", mode == 2 || mode == 4)
+		zzv.Finding("C09-F1", mode == 2 || mode == 4 || mode == 5)
 		zzv.Assert(lbl+".resumes.old.or.new", is1 || is2)
 		if mode == 0 {
 			zzv.Assert(lbl+".resumes.acknowledged", is2)
@@ -381,6 +384,30 @@ func VStoreCrash(K int) {
 		zzv.Observe("start", start, lerr != nil, len(info.Status), is1, is2)
 	}
 	zzv.Cover("store.end")
+}
+
+// vDryRunSize (native only): how many bytes the store holds after req was applied to a copy of
+// dir - the length of the document the real update is about to write.
+func vDryRunSize(dir string, req *shard.UpdateTargetsRequest) int {
+	clone := zzv.TempDir()
+	ents, _ := ioutil.ReadDir(dir)
+	for _, e := range ents {
+		if b, err := ioutil.ReadFile(path.Join(dir, e.Name())); err == nil {
+			_ = ioutil.WriteFile(path.Join(clone, e.Name()), b, 0755)
+		}
+	}
+	tm := NewTargetsManager(clone, prometheus.NewRegistry(), vLogger())
+	_ = tm.Load()
+	cp := map[string][]*target.Target{}
+	for j, ts := range req.Targets {
+		for _, t := range ts {
+			c := *t
+			cp[j] = append(cp[j], &c)
+		}
+	}
+	_ = tm.UpdateTargets(&shard.UpdateTargetsRequest{Targets: cp})
+	b, _ := ioutil.ReadFile(path.Join(clone, storeFileName))
+	return len(b)
 }
 
 // vMatches: does info equal the assignment want (targets per job with hash, state, estimates) and
